@@ -33,7 +33,9 @@ RULE = ("'hostile' (random): a grader spec (vlib/gspec.py; String, Formula, Nume
         "ConfigError. 'anchors' (exhaustive list): 41 documented problems (unparsable, unbalanced, undefined name, "
         "division by zero, overflow, wrong arity, shape mismatch, empty list entry, bad bracket, wrong input count, bad "
         "summation limits ...) on fixed graders must raise exactly the library's specific class for that problem, and "
-        "pass the same differential. Non-trivial = the debug-off call raised; distinct by spec. Buckets by grader kind x twin "
+        "pass the same differential. 'families' (random): Formula / Numerical / Matrix graders given a generated "
+        "formula of any length broken in a known way (trailing / leading / doubled operator -> UnableToParse; "
+        "unclosed / unopened bracket -> UnbalancedBrackets): that class must be raised. Non-trivial = the debug-off call raised; distinct by spec. Buckets by grader kind x twin "
         "exception type.")
 ASSUMPTIONS = ["attempt is an int (or omitted when no attempt credit is configured, rarely omitted otherwise); expect is None",
                "SumGrader limit boxes only receive text from a bounded pool (|limit| <= 2000, infty_val <= 200): the docs "
@@ -49,10 +51,13 @@ ASSUMPTIONS = ["attempt is an int (or omitted when no attempt credit is configur
 REQUIRED = {'twin/unanticipated': 100, 'twin/domain-error': 100, 'twin/shape-error': 40, 'nontext/refused': 300,
             'twin/parse-error': 200, 'twin/unbalanced': 50, 'twin/undefined-name': 100, 'twin/config-error': 30,
             'message/line-breaks-rendered': 50, 'returned': 500, 'generic/list-form': 10, 'generic/single-form': 50,
-            'deep-brackets>=50': 20, 'how/domain': 300, 'how/mutate': 300, 'how/text': 200}
+            'deep-brackets>=50': 20, 'how/domain': 300, 'how/mutate': 300, 'how/text': 200,
+            'family/longer-than-40': 100, 'family/trailing-operator': 50, 'family/unclosed': 50}
 for _k in gspec.KINDS:
     REQUIRED['raised/' + _k] = 30
     REQUIRED['nontext/' + _k] = 15
+REQUIRED.update({'nontext-kind/text-where-list-required': 25, 'nontext-kind/list-where-text-required': 100,
+                 'nontext-kind/nested-list': 30, 'nontext-kind/list-with-one-non-text': 30})
 
 DEBUG_ONLY_FUNCS = {'log_eval_info', 'log_comparison_info', 'log_output'}
 
@@ -166,11 +171,17 @@ def out_of_domain(draw):
 def hostile_box(draw, plain):
     """-> (text, label, depth) for one input box whose plausible content is `plain`."""
     how = draw(st.sampled_from(['domain', 'mutate', 'domain', 'text', 'mutate', 'domain']))
+    deep = 0
     if how == 'domain':
-        return out_of_domain(draw), how, 0
-    if how == 'text':
-        return draw(st.text(max_size=draw(st.sampled_from([3, 10, 40])))), how, 0
-    t, deep = mutate(draw, plain)
+        t = out_of_domain(draw)
+    elif how == 'text':
+        t = draw(st.text(max_size=draw(st.sampled_from([3, 10, 40]))))
+    else:
+        t, deep = mutate(draw, plain)
+    if gspec.chance(draw, 15):
+        # surrounding whitespace: the generic error must name the submission as it was made
+        pad = st.sampled_from([' ', '  ', '\t', '\n', '\xa0'])
+        t = (draw(pad) if draw(st.booleans()) else '') + t + (draw(pad) if draw(st.booleans()) else '')
     return t, how, deep
 
 
@@ -248,8 +259,23 @@ def twin_bucket(e):
     return 'other-student-facing'
 
 
-def differential(rec, g0, g1, inp, kwargs, seed, kind, is_list):
-    """The C02 oracle for one text submission; returns ('returned', result) or ('raised', exception)."""
+def differential(rec, make, inp, kwargs, seed, kind, is_list):
+    """The C02 oracle for one text submission; returns ('returned', result) or ('raised', exception).
+
+    make() builds a fresh (debug-off grader, debug-on twin) pair.  A mismatch between the two calls is confirmed on a
+    second, fresh pair before it is reported: whether a deeply nested input exhausts the interpreter stack can depend
+    on what earlier calls left in the parser caches, and a defect in the error handling reproduces regardless."""
+    try:
+        return _differential(rec, make, inp, kwargs, seed, kind, is_list)
+    except Violation as v:
+        if not v.key.startswith(('anticipated/', 'unanticipated/')):
+            raise
+        rec.note('mismatch_rechecked')
+    return _differential(rec, make, inp, kwargs, seed, kind, is_list)
+
+
+def _differential(rec, make, inp, kwargs, seed, kind, is_list):
+    g0, g1 = make()
     status, val = timed_call(rec, g0, inp, kwargs, seed)
     if status == 'ok':
         prob = gspec.shape_problem(val, inp, is_list)
@@ -306,9 +332,10 @@ def differential(rec, g0, g1, inp, kwargs, seed, kind, is_list):
 
 def judge_hostile(spec, rec):
     g, inp, kind = spec['g'], spec['input'], spec['kind']
+    def make():
+        return gspec.build(g, debug=False), gspec.build(g, debug=True)
     try:
-        g0 = gspec.build(g, debug=False)
-        g1 = gspec.build(g, debug=True)
+        make()
     except (MITxError, SchemaError):
         raise Discard('invalid-config/%s' % kind)
     kwargs = {} if spec['attempt'] is None else {'attempt': spec['attempt']}
@@ -316,7 +343,7 @@ def judge_hostile(spec, rec):
         rec.cls('how/' + h)
     if spec.get('deep', 0) >= 50:
         rec.cls('deep-brackets>=50')
-    status, val = differential(rec, g0, g1, inp, kwargs, spec['seed'], kind, g['$g'] == 'ListGrader')
+    status, val = differential(rec, make, inp, kwargs, spec['seed'], kind, g['$g'] == 'ListGrader')
     return {'outcome': status, 'type': type(val).__name__}
 
 
@@ -360,6 +387,54 @@ ANCHORS = [
 ]
 
 
+FAMILY_KINDS = ['Formula', 'Numerical', 'Matrix']
+_family_trees = exprgen.trees(var_names=['zqx', 'zqy'], func_names=['sin', 'cos', 'exp', 'sqrt', 'abs'], max_leaves=4)
+
+
+@st.composite
+def strat_families(draw, tier):
+    """A formula grader and a syntactically broken formula of arbitrary length whose problem class is known."""
+    case = draw(gspec.grader_cases(kinds=FAMILY_KINDS))
+    terms = draw(st.lists(_family_trees, min_size=1, max_size=draw(st.sampled_from([1, 3, 8, 20]))))
+    body = draw(st.sampled_from(['+', '*', '-', ' + '])).join('(%s)' % exprgen.render(t) for t in terms)
+    fam = draw(st.sampled_from(['trailing-operator', 'leading-operator', 'unclosed', 'unopened', 'double-operator']))
+    if fam == 'trailing-operator':
+        inp, cls = body + draw(st.sampled_from(['+', '-', '*', '/', '^'])), 'UnableToParse'
+    elif fam == 'leading-operator':
+        inp, cls = draw(st.sampled_from(['*', '/', '^'])) + body, 'UnableToParse'
+    elif fam == 'double-operator':
+        inp, cls = body + draw(st.sampled_from(['*/', '/*', '^*', '+*'])) + body, 'UnableToParse'
+    elif fam == 'unclosed':
+        inp, cls = draw(st.sampled_from(['(', '[', '((', 'sin('])) + body, 'UnbalancedBrackets'
+    else:
+        inp, cls = body + draw(st.sampled_from([')', ']', '))'])), 'UnbalancedBrackets'
+    attempt = draw(gspec.attempts) if 'attempt_based_credit' in case['g']['kw'] else None
+    return {'kind': case['kind'], 'g': case['g'], 'input': inp, 'cls': cls, 'family': fam, 'attempt': attempt,
+            'seed': draw(st.integers(0, 10 ** 6))}
+
+
+def judge_family(spec, rec):
+    g, inp, kind = spec['g'], spec['input'], spec['kind']
+
+    def make():
+        return gspec.build(g, debug=False), gspec.build(g, debug=True)
+    try:
+        make()
+    except (MITxError, SchemaError):
+        raise Discard('invalid-config/%s' % kind)
+    kwargs = {} if spec['attempt'] is None else {'attempt': spec['attempt']}
+    status, e = differential(rec, make, inp, kwargs, spec['seed'], kind, False)
+    if status != 'raised':
+        raise Violation('family/graded', '%s graded the malformed formula %r' % (g['$g'], inp))
+    if type(e).__name__ != spec['cls']:
+        raise Violation('anchor/class-not-kept/' + spec['cls'], '%s on %r (%s): expected the specific error %s, got %s: %s'
+                        % (g['$g'], inp, spec['family'], spec['cls'], type(e).__name__, str(e)[:200]))
+    rec.cls('family/' + spec['family'])
+    if len(inp) > 40:
+        rec.cls('family/longer-than-40')
+    return {'raised': type(e).__name__}
+
+
 def items_anchors(tier):
     for key, inp, cls in ANCHORS:
         yield {'grader': key, 'input': inp, 'cls': cls}
@@ -367,9 +442,9 @@ def items_anchors(tier):
 
 def judge_anchor(spec, rec):
     g = ANCHOR_GRADERS[spec['grader']]
-    g0, g1 = gspec.build(g, debug=False), gspec.build(g, debug=True)
     inp = spec['input']
-    status, e = differential(rec, g0, g1, inp, {}, 0, 'anchor', g['$g'] == 'ListGrader')
+    status, e = differential(rec, lambda: (gspec.build(g, debug=False), gspec.build(g, debug=True)), inp, {}, 0,
+                             'anchor', g['$g'] == 'ListGrader')
     if status != 'raised':
         raise Violation('anchor/graded', '%s graded %r instead of reporting %s' % (g['$g'], inp, spec['cls']))
     if type(e).__name__ != spec['cls'] or not isinstance(e, MITxError):
@@ -420,7 +495,7 @@ def strat_nontext(draw, tier):
     case = draw(gspec.grader_cases())
     kind = case['kind']
     texts = [draw(s.good) for s in case['slots']]
-    k = draw(st.integers(0, 9))
+    k = draw(st.sampled_from([8, 0, 1, 3, 4, 5, 6, 7, 8, 2, 8]))
     if k < 3:
         obj = draw(scalars)
         label = obj['obj']
@@ -444,13 +519,14 @@ def strat_nontext(draw, tier):
             {'obj': 'list', 'v': [{'obj': 'list', 'v': [t]} for t in texts]}
         label = 'nested-list'
     elif kind == 'List':
-        obj = {'obj': 'str', 'v': draw(st.sampled_from(['x' * len(texts), texts[0], ', '.join(texts), '']))}
+        # a text where a list is required (one character per expected box, so that only the type is wrong)
+        obj = {'obj': 'str', 'v': draw(st.sampled_from(['x' * len(texts), 'x' * len(texts), texts[0], ', '.join(texts), '']))}
         label = 'text-where-list-required'
     elif kind == 'Sum':
         obj = {'obj': 'set', 'v': texts[:1]}
         label = 'set'
     else:
-        obj = {'obj': 'list', 'v': [texts[0]] * draw(st.sampled_from([1, 2]))} if draw(st.booleans()) else \
+        obj = {'obj': 'list', 'v': [texts[0]] * draw(st.sampled_from([1, 2]))} if draw(st.integers(0, 3)) else \
             {'obj': 'list', 'v': []}
         label = 'list-where-text-required'
     attempt = None
@@ -485,7 +561,9 @@ def judge_nontext(spec, rec):
 PARTS = [
     Part('anchors', 'enum', judge_anchor, items=items_anchors, exhaustive=True, shards=2),
     Part('hostile', 'hyp', judge_hostile, strategy=lambda tier: strat_hostile(tier),
-         budget={'quick': 7000, 'thorough': 280000}),
+         budget={'quick': 9000, 'thorough': 300000}),
+    Part('families', 'hyp', judge_family, strategy=lambda tier: strat_families(tier),
+         budget={'quick': 1200, 'thorough': 20000}),
     Part('nontext', 'hyp', judge_nontext, strategy=lambda tier: strat_nontext(tier),
-         budget={'quick': 1000, 'thorough': 20000}),
+         budget={'quick': 1500, 'thorough': 30000}),
 ]
